@@ -48,7 +48,7 @@ check(
           "DFT and as round trip; irfft/IfftPlanR for every even n in both input forms (full spectrum, first n/2+1 bins) against the real "
           "signal whose exact DFT was supplied, odd n must throw; stft->istft for every (window of 11 kinds, overlap, nfft, range, method) "
           "accepted by iscola, on signals whose length is not hop aligned, judged per sample where the accumulated window weight is "
-          "non-zero, and all samples must be finite; iscola cross-checked against a long-double overlap sum. distinct = hash of "
+          "non-zero (tolerance 64*eps*log2(nfft)*max|x| amplified by sum|w|^(p-1)/weight; samples whose tolerance would exceed 1e-3*max|x| are counted, not judged), and all samples must be finite; iscola cross-checked against a long-double overlap sum. distinct = hash of "
           "(entry point, configuration, input bits)."),
     exhaustive_subspaces={"quick": ["ifft/irfft: all n<=1024", "stft: all overlaps 0..nwin-1 for nwin<=64 x 11 windows x 2 methods x 3 ranges"],
                           "thorough": ["ifft: all n<=8192; irfft: all even n<=8192, all odd n rejected", "stft: all overlaps 0..nwin-1 for nwin<=128 x 11 windows x 2 methods x 3 ranges"]},
@@ -182,12 +182,12 @@ check(
 check(
     "C08",
     runs=[dict(harness="C08_multirate", flavour="plain")],
-    rule=("all reduced L/M with L,M<=16 plus audio ratios (160/441, 441/160, 147/160, 160/147, 320/147, 147/320): FIRInterpolator / "
+    rule=("all reduced L/M with L,M<=16 (thorough: <=24, seven coefficient lengths each) plus audio ratios (160/441, 441/160, 147/160, 160/147, 320/147, 147/320): FIRInterpolator / "
           "FIRDecimator / FIRRateConverter / FIRResampler with the default design and with random symmetric h of lengths that are and are "
           "not multiples of L or M; the integer phase c is found on a calibration input by exhaustive search (unique exact fit) and must then "
           "explain every output of further inputs (random, impulses, swept tone) under random framings in multiples of M "
           "(|y[i]-v[iM+c]| <= 16*eps*sum|g|*max|x|); output counts len*L/M; non-multiple frames must throw; resample(x,p,q) for every "
-          "reduced p,q<=16 + audio + non-reduced ratios: no exception, length p'*ceil(len/q'), identity for p=q, LS-fitted alignment "
+          "reduced p,q<=16 (thorough: 24) + audio + non-reduced ratios: no exception, length p'*ceil(len/q'), identity for p=q, LS-fitted alignment "
           "|tau|<=1 output sample and residual <= 1% for 1..3 tones. distinct = (configuration, input bits)."),
     exhaustive_subspaces={"quick": ["all reduced ratios L/M with L,M in 1..16 (159) + 8 audio ratios"], "thorough": ["all reduced ratios L/M with L,M in 1..16 (159) + 8 audio ratios"]},
     min_distinct={"quick": 2000, "thorough": 4000},
@@ -213,11 +213,16 @@ check(
           "FftPlanR (even-packed, odd composite, prime), IfftPlan, IfftPlanR, CztPlan - created in the main thread, which keeps using the "
           "same sub-plans through its own cache, (b) thread-private fft/ifft/rfft/irfft over 15 lengths that hit and evict the per-thread "
           "caches, xcorr, FftFilter/FirFilter instances, welch, resample, hilbert, kaiser, fir1, (c) replays of an rng(seed) call script "
-          "while other threads seed and draw. Oracles: zero ThreadSanitizer reports (tsan build), every result equal to the sequential "
+          "while other threads seed and draw; and, first in every process, a cold-start phase in which 4/8/12 threads make their FIRST calls of "
+          "isprime/factor/nextprime/primes (arguments of growing magnitude 6e4..4e9, four barrier-released steps), fft/rfft of lengths that need "
+          "new factorizations, windows, fir1, design_multirate_fir, resample, welch, xcorr, hilbert, medfilt/sort/median, corr, finddelay, thd/sinad "
+          "and distinct filter/resampler/tuner/AGC objects at once, each result compared bitwise with the same call made sequentially AFTERWARDS "
+          "(lazily built process-wide state is only racy on first use). Oracles: zero ThreadSanitizer reports (tsan build), every result equal to the sequential "
           "reference (1e-12 rel.), script values equal to the single-threaded ones. The yield hook is on in every second round; the plain "
           "build repeats the workload with 5x the iterations. non-trivial = round in which calls overlapped on a shared plan."),
     min_distinct={"quick": 32, "thorough": 400},
-    min_obs={"quick": {"overlapping_calls_on_shared_plans": 5000}, "thorough": {"overlapping_calls_on_shared_plans": 50000}},
+    min_obs={"quick": {"overlapping_calls_on_shared_plans": 5000, "cold_start_calls_compared": 4000},
+             "thorough": {"overlapping_calls_on_shared_plans": 50000, "cold_start_calls_compared": 4000}},
     technique="ThreadSanitizer (happens-before race detection) over a barrier-released stress workload with injected yields, plus sequential-vs-concurrent result comparison; thorough: the workload again under valgrind helgrind",
     level_text=("The real library runs under ThreadSanitizer while 2..16 threads hammer shared plan objects of every kind and their own "
                 "caches; any race report or any result that differs from the sequential one is a violation. Held on the interleavings "
@@ -394,7 +399,9 @@ check(
     level_text=("Every toolbox function is executed on special points and log-uniform random arguments and compared with its definition "
                 "in extended precision; shape functions are enumerated for small sizes. Held on the evaluations counted in the evidence."),
     level_note="trusted: long double libm (expl, logl, powl, atan2l ...); complex dot is taken as the bilinear sum the library documents by its use (no conjugation)",
-    assumptions=["arguments whose squares or powers overflow are not generated; delayseq is only instantiable for real arrays"],
+    assumptions=["arguments whose squares or powers overflow are not generated; delayseq is only instantiable for real arrays",
+                 "argmax/argmin of a real array with tied extrema: the first occurrence is expected (the MATLAB/NumPy convention the library follows); "
+                 "complex arrays with tied moduli are counted and not judged; round() is round-half-away-from-zero as std::round"],
 )
 
 check(
